@@ -24,6 +24,7 @@ META = {
     "not_decided": "behaviour of the river metric objects themselves (library code outside /repo)",
 }
 META["explanation"] += " Also COPY (the sign survives copying / pickling) and: no explainer updates the user's metric object outside the wrapper."
+META["explanation"] += ' Round 5: __call__ leaves its arguments unchanged; the dict flag kept in a derived form (Enum, strategy object) is not decided. HAZARD: constructs that do not mean what they look like, met in the analysed code (defaults evaluated once, class-level containers changed through self, dict.fromkeys with a shared mutable value, late-binding lambdas, truth value of objects that define __len__) are reported by every check.'
 MIN_INSTANCES = {"PAIR": 3, "SIGN": 2, "AGREE": 4, "COPY": 1}
 CLS = "RiverMetricToLossFunction"
 VALIDATOR = "ixai.utils.validators.loss._get_loss_function_from_river_metric"
